@@ -3,19 +3,27 @@ C08 - notes written to note data read back identically, in canonical form.
 
 NoteData.from_notes (three nested itertools.groupby loops, a reduce over gcd, closures
 writing to a StringIO) was not brought under loop invariants; it is covered by a bounded
-stand-in against the statement.  The arithmetic the statement rests on is proved.
+stand-in against the statement.  The arithmetic the statement rests on is proved, and proved
+of the code's own expressions: the folding function handed to reduce and the three groupby
+key functions are read from the real AST on every run and executed symbolically
+(LcmStep, GroupingKeys).
 """
 from __future__ import annotations
 
 import z3
 
 from pyvc.prop import Unit, Bounded
-from pyvc.values import INT, FRAC, fresh_term
+from pyvc.values import INT, FRAC, fresh_term, term
 
 LEVEL = "other"
-TRUSTED = ["math.gcd / functools.reduce compute the least common multiple of the denominators (T-STD)", "pyvc VC generator; z3/cvc5"]
+TRUSTED = ["math.gcd(a, b) of positive integers is a positive common divisor (T-STD; 'greatest', hence minimality of the row count, is not proved - the bounded stand-in checks 4 x lcm)",
+           "functools.reduce folds the step over the denominators from 1 and itertools.groupby groups consecutive equal keys (T-STD); the induction 'every step keeps a common multiple => q is a multiple of every denominator' is argued, not mechanised",
+           "pyvc VC generator; z3/cvc5"]
 ASSUMPTIONS = ["NoteData.from_notes itself is checked only by the bounded stand-in (never counted as proved)"]
-EXPLANATION = ("Proved (SMT): the arithmetic lemmas behind the canonical form - a beat whose denominator divides q lands on the integer row (beat mod 4) x q of a "
+EXPLANATION = ("Proved (SMT) on the real AST of from_notes: the function folded over a measure's denominators returns a positive common multiple of the accumulator and the new denominator "
+               "(so q is a multiple of every denominator); the three groupby keys are the player, floor(beat / 4), and the integer (beat mod 4) x q with nothing truncated by int(), in range 0 .. 4q-1, "
+               "and the (measure, row) a note is written at decodes (C07 formula) to exactly its beat. "
+               "Proved (SMT): the arithmetic lemmas behind the canonical form - a beat whose denominator divides q lands on the integer row (beat mod 4) x q of a "
                "measure with 4q rows, that row decodes back to exactly the same beat, rows of different beats differ, and a measure index / row pair determines the beat. "
                "Bounded (never counted as proved): NoteData.from_notes against the statement (decode(encode(notes)) == notes, column count, 4 x lcm rows per measure, "
                "blank skipped measures and players, canonical stability, one blank measure for the empty stream) on exhaustive small streams and generated larger ones.")
@@ -45,7 +53,151 @@ class RowArithmetic(Unit):
                  "Beat(m*4*rows + r*4, rows) is the original beat")
 
 
-UNITS = [RowArithmetic()]
+def _fn_value(ex, node, outer_fi, fr):
+    """a function-valued argument as written in from_notes: a lambda, or the name of a function defined inside from_notes"""
+    import ast
+    from pyvc.execu import LambdaVal, Closure, Unsupported
+    if isinstance(node, ast.Lambda):
+        return LambdaVal(node, fr)
+    if isinstance(node, ast.Name):
+        defs = [n_ for n_ in ast.walk(outer_fi.node) if isinstance(n_, ast.FunctionDef) and n_ is not outer_fi.node and n_.name == node.id]
+        if len(defs) == 1:
+            for cand in ex.repo.funcs.values():
+                if cand.node is defs[0]:
+                    return Closure(cand, fr)
+    raise Unsupported("a grouping key / folding step of from_notes is neither a lambda nor a function defined inside from_notes: the contract does not fit the code")
+
+
+def _is_fn_arg(node):
+    import ast
+    return isinstance(node, (ast.Lambda, ast.Name))
+
+
+def _gcd_contract(ex, args, kwargs):
+    """assumed contract of math.gcd on positive integers: the result is a positive common divisor (T-STD; 'greatest' is
+    not needed for 'every denominator divides q' and is not assumed)"""
+    from pyvc.values import SV, term, is_sym
+    a, b = args
+    if not (is_sym(a) or is_sym(b)):
+        import math
+        return math.gcd(a, b)
+    ex.assumptions_used.add("T-STD: math.gcd(a, b) of positive integers is a positive common divisor of a and b")
+    at, bt = term(a, INT), term(b, INT)
+    g, x, y = (fresh_term(z3.IntSort(), h) for h in ("gcd", "gx", "gy"))
+    ex.assume(z3.And(g >= 1, x >= 1, y >= 1, at == g * x, bt == g * y))
+    ex.gcd_witness = (g, x, y)
+    return SV(g, INT)
+
+
+class LcmStep(Unit):
+    """The folding function handed to functools.reduce in push_measure (read from the real AST on every run): on positive
+    integers its result is a positive common multiple of the accumulator and of the new denominator - so, by the fold
+    (T-STD reduce), q is a multiple of every beat's denominator in the measure, which is the premise of ROW-ARITHMETIC."""
+    name = "from_notes.push_measure.<lcm-step>"
+    functions = ("simfile.notes.NoteData.from_notes",)
+    expected = ["post:step-is-a-multiple-of-the-accumulator", "post:step-is-a-multiple-of-the-denominator", "post:step-is-positive"]
+
+    def run(self, ex):
+        import ast, math
+        from pyvc.execu import Frame, LambdaVal, Unsupported
+        from pyvc import models as M
+        fi = ex.repo.func("simfile.notes.NoteData.from_notes")
+        lam = None
+        for node in ast.walk(fi.node):
+            if isinstance(node, ast.Call) and isinstance(node.func, (ast.Name, ast.Attribute)) \
+                    and (getattr(node.func, "id", None) == "reduce" or getattr(node.func, "attr", None) == "reduce") \
+                    and node.args and _is_fn_arg(node.args[0]):
+                if lam is not None:
+                    raise Unsupported("more than one reduce(...) in from_notes: the contract no longer fits the code")
+                lam, call = node.args[0], node
+        if lam is None:
+            raise Unsupported("no reduce(<function>, ...) in from_notes: the contract no longer fits the code")
+        if len(call.args) != 3 or not (isinstance(call.args[2], ast.Constant) and call.args[2].value == 1):
+            ex.prove("post:fold-starts-at-1", False, "the fold over the denominators does not start from 1")
+            return
+        M.REAL_CALL[math.gcd] = _gcd_contract
+        import simfile.notes as nmod
+        fr = Frame(fi, {}, None, nmod)
+        a, b = ex.sym(INT, "acc"), ex.sym(INT, "den")
+        ex.assume(z3.And(a.t >= 1, b.t >= 1))
+        r = ex.call(_fn_value(ex, lam, fi, fr), [a, b], {})
+        rt = term(r, INT)
+        w = getattr(ex, "gcd_witness", None)
+        if w is None:
+            # no gcd in the step: the multiples must exist all the same
+            ka, kb = fresh_term(z3.IntSort(), "ka"), fresh_term(z3.IntSort(), "kb")
+            ex.prove("post:step-is-a-multiple-of-the-accumulator", z3.Exists([ka], rt == a.t * ka))
+            ex.prove("post:step-is-a-multiple-of-the-denominator", z3.Exists([kb], rt == b.t * kb))
+        else:
+            g, x, y = w
+            ex.prove("post:step-is-a-multiple-of-the-accumulator", rt == a.t * y, "acc x den // gcd = acc x (den / gcd)")
+            ex.prove("post:step-is-a-multiple-of-the-denominator", rt == x * b.t, "acc x den // gcd = (acc / gcd) x den")
+        ex.prove("post:step-is-positive", rt >= 1)
+
+
+def _from_notes_lambdas(ex):
+    """the three grouping keys and the name holding the lcm, read from the real AST of from_notes"""
+    import ast
+    from pyvc.execu import Unsupported
+    fi = ex.repo.func("simfile.notes.NoteData.from_notes")
+    nested = [n_ for n_ in ast.walk(fi.node) if isinstance(n_, ast.FunctionDef) and n_ is not fi.node]
+    in_nested = {id(x) for f in nested for x in ast.walk(f)}
+
+    def is_groupby(c):
+        return isinstance(c, ast.Call) and (getattr(c.func, "id", None) == "groupby" or getattr(c.func, "attr", None) == "groupby") \
+            and len(c.args) == 2 and _is_fn_arg(c.args[1])
+
+    calls = [c for c in ast.walk(fi.node) if is_groupby(c)]
+    inner = [c for c in calls if id(c) in in_nested]
+    outer = sorted((c for c in calls if id(c) not in in_nested), key=lambda c: (c.lineno, c.col_offset))
+    qname = None
+    for f in nested:
+        for a in ast.walk(f):
+            if isinstance(a, ast.Assign) and isinstance(a.value, ast.Call) and getattr(a.value.func, "id", getattr(a.value.func, "attr", None)) == "reduce" \
+                    and len(a.targets) == 1 and isinstance(a.targets[0], ast.Name):
+                qname = a.targets[0].id
+    if len(inner) != 1 or len(outer) != 2 or qname is None:
+        raise Unsupported("from_notes no longer groups by player, measure and row with three groupby(..., <function>) calls: the contract does not fit the code")
+    return fi, inner[0].args[1], outer[0].args[1], outer[1].args[1], qname
+
+
+class GroupingKeys(Unit):
+    """The key functions of the three itertools.groupby calls (real AST): notes are grouped by player, by floor(beat / 4)
+    and - with q a multiple of the beat's denominator - by the integer (beat mod 4) x q, computed without truncation.
+    Together with ROW-ARITHMETIC: the (measure, row) pair a note is written at decodes to exactly its beat."""
+    name = "from_notes.<grouping-keys>"
+    functions = ("simfile.notes.NoteData.from_notes", "simfile.timing.Beat.__new__")
+    expected = ["post:player-key", "post:measure-key-is-floor-of-beat-over-4", "post:row-key-is-exact", "post:row-key-in-range", "post:row-decodes-to-the-same-beat"]
+
+    def run(self, ex):
+        from pyvc.execu import Frame, LambdaVal
+        from pyvc.values import TNT
+        import simfile.notes as nmod
+        fi, row_key, player_key, measure_key, qname = _from_notes_lambdas(ex)
+        note = ex.sym(TNT(nmod.Note), "note")
+        beat = term(note.get("beat") if hasattr(note, "get") else ex.getattr(note, "beat"))
+        nn, d, k, m, rem = (fresh_term(z3.IntSort(), h) for h in ("n", "d", "k", "m", "rem"))
+        # beat = n / d >= 0 exactly; n = 4 d m + rem with 0 <= rem < 4 d; q = d k
+        ex.assume(z3.And(nn >= 0, d >= 1, k >= 1, beat * z3.ToReal(d) == z3.ToReal(nn), nn == 4 * d * m + rem, rem >= 0, rem < 4 * d, m >= 0))
+        q = ex.sym(INT, "q")
+        ex.assume(q.t == d * k)
+        fr = Frame(fi, {qname: q}, None, nmod)
+        pk = ex.call(_fn_value(ex, player_key, fi, fr), [note], {})
+        ex.prove("post:player-key", term(pk, INT) == term(ex.getattr(note, "player"), INT), "notes are grouped by player")
+        mk = ex.call(_fn_value(ex, measure_key, fi, fr), [note], {})
+        mkt = term(mk)
+        mkt = z3.ToReal(mkt) if mkt.sort() == z3.IntSort() else mkt
+        ex.prove("post:measure-key-is-floor-of-beat-over-4", mkt == z3.ToReal(m), "notes are grouped by the measure floor(beat / 4)")
+        rk = ex.call(_fn_value(ex, row_key, fi, fr), [note], {})
+        rt = term(rk, INT)
+        ex.prove("post:row-key-is-exact", rt == rem * k, "(beat mod 4) x q is the integer rem x k: int() truncates nothing")
+        ex.prove("post:row-key-in-range", z3.And(rt >= 0, rt < 4 * q.t))
+        rows = 4 * q.t
+        ex.prove("post:row-decodes-to-the-same-beat", z3.ToReal(m * 4 * rows + rt * 4) == beat * z3.ToReal(rows),
+                 "row r of the 4q rows of measure m reads back (C07) as Beat(m*4*rows + r*4, rows) = the note's beat")
+
+
+UNITS = [RowArithmetic(), LcmStep(), GroupingKeys()]
 
 
 def N():
